@@ -78,8 +78,8 @@ lists (`DiffLike`): the repaired `diff` and the old one -/
 theorem rebuildWith_summary (D : List Key → List Key → Diff) (hD : DiffLike D) (s : KState) (to : List Key)
     (hs : Wf s) (hto : to.Nodup) :
     Summary s.hashed to (somes s.w.storage) (rebuildWith D s to).w :=
-  applyDiff_summary D hD s.hashed to (somes s.w.storage) hs.nodup hto hs.keys s.bs s.marker
-    { s.w with log := {} } hs.all_some rfl
+  (applyDiff_summary D hD s.hashed to (somes s.w.storage) hs.nodup hto hs.keys s.bs s.marker
+    { s.w with log := {} } hs.all_some rfl).of_sim (rebuildWith_sim D s to)
 
 theorem rebuild_summary (s : KState) (to : List Key) (hs : Wf s) (hto : to.Nodup) :
     Summary s.hashed to (somes s.w.storage) (rebuild s to).w :=
@@ -188,7 +188,7 @@ example : ∃ (s : KState) (to : List Key) (pre post : List NodeId),
       w := { ((build 2 [0, 1, 2, 3] [100] 101).mount none).w with
         kids := ((build 2 [0, 1, 2, 3] [100] 101).mount none).w.kids ++ [200], next := 201 } },
     [3, 0, 5, 2], [100], [200],
-    ⟨by decide, by decide, by decide⟩, ⟨by decide, by decide, by decide, by decide, by decide⟩,
+    ⟨by decide, by decide, by decide⟩, ⟨by decide, by decide, by decide, by decide, by decide, by decide⟩,
     by decide, by decide, by decide, by decide, by decide⟩
 
 /-! ## histories -/
@@ -265,7 +265,7 @@ def witnessState : KState := (build 1 [0, 1, 2] [] 0).mount none
 theorem witnessState_wf : Wf witnessState := ⟨by decide, by decide, by decide⟩
 
 theorem witnessState_mounted : Mounted [] [] witnessState :=
-  ⟨by decide, by decide, by decide, by decide, by decide⟩
+  ⟨by decide, by decide, by decide, by decide, by decide, by decide⟩
 
 /-- before the repair, `[0,1,2] → [4,3,2,1,0]` left the storage as `4,3,2,1,0` but the children of the
 parent as the nodes of `1,4,3,2,0` (item 1, index 1 → 3, was not moved in the DOM because two items
